@@ -1,9 +1,11 @@
-# C03 — modular rings are exact for every modulus up to the advertised maximum.   (DESIGN 5/C03)
-# proof:  coq/C03 (parametrised model of the word rings, extended Euclid, float/balanced rings on an exact-integer
-#         layer); the advertised maxima are read from the implementation on every run and written to
-#         coq/C03/Params.v, so the theorems are always about the maxCardinality() the code defines now.
-# tie:    correspondence: extracted model vs the rings of /repo's current headers (every call form)
-# search: python big-integer specification oracle on the same cases
+# C03 — modular rings are exact for every modulus up to the advertised maximum.   (DESIGN 5/C03, frag/C03.design.md)
+# proof:  coq/C03: Model.v (integral rings with every C conversion/wrap explicit, extended Euclid, mul_precomp),
+#         ModelF.v (float layer with explicit rounding; floating, balanced, extended, RecInt, Integer rings);
+#         theorems for all moduli up to maxCardinality (Properties.v).  The advertised bounds are printed by the
+#         implementation on every run and written to coq/C03/Params.v, so the theorems are always about the
+#         maxCardinality() the code defines now.
+# tie:    correspondence: extracted models vs the rings of /repo's current headers (every call form)
+# search: python big-integer specification oracle on the same cases (all ring types, incl. the unmodelled ones)
 import json, math, os, re, sys
 import vf
 
@@ -375,11 +377,15 @@ def main(tier, replay=None):
     chk = vf.Check("C03", tier, "proof")
     rng = vf.Rng(chk.seed)
     chk.cov["trusted_base"] = [
-        "Coq 8.16.1 kernel + vm_compute (no native_compute)",
+        "Coq 8.16.1 kernel + vm_compute (no native_compute); all theorems closed under the global context",
         "extraction: ExtrOcamlBasic only; Z/positive/nat kept as extracted inductives; OCaml 4.13.1; zarith only for text I/O",
-        "Model.v's C integer semantics (LP64, int = 32 bit, integer promotion, two's-complement conversions); validated by the correspondence run",
+        "Model.v's C integer semantics (LP64, int = 32 bit, integer promotion, two's-complement conversions, signed overflow as wrap) "
+        "and ModelF.v's float layer (round to nearest even to 24/53 bits on integers/dyadics, exponent range not modelled, "
+        "no FP contraction); validated by the correspondence run",
+        "the floating-point quotient estimates of ModularBalanced<int32|int64> / ModularExtended and every operation of the "
+        "balanced, extended, Integer, Log16 and rint rings are correspondence/oracle-tested, not proved (see level_claimed)",
         "harness/c03_modular.C, checks/C03.py (case generator, python big-integer oracle)",
-        "g++ 12 / x86-64 for the implementation side",
+        "g++ / x86-64 (FMA path of ModularExtended) for the implementation side",
     ]
     himpl, l2 = vf.build_harness("c03_modular.C")
     if himpl is None:
@@ -418,10 +424,18 @@ def main(tier, replay=None):
                 hi = 1 << 200
             small = ring in INT_RINGS and ITY[ring.split("_")[0]][0] <= 16
             if not quick and small and hi <= 65535:
-                ms = list(range(lo, hi + 1)) if hi <= 256 else moduli(rng, lo, hi, 200)
+                ms = list(range(lo, hi + 1)) if hi <= 256 else moduli(rng, lo, hi, 300)
             else:
-                ms = moduli(rng, lo, hi, 1 if quick else 40)
-            per = 2 if quick else 6
+                ms = moduli(rng, lo, hi, 1 if quick else 120)
+            per = 2 if quick else 8
+            if not quick and ring in ("i16_u32", "u16_u32"):
+                # EVERY modulus of the 16-bit double-width rings with the overflow corners (finite space, swept completely)
+                for p in range(lo, hi + 1):
+                    h1 = p - 1
+                    for op, t in (("mul", [h1, h1]), ("axpy", [h1, h1, h1]), ("axpyin", [h1, h1, h1]), ("axmy", [h1, h1, 0]),
+                                  ("axmyin", [h1, h1, 0]), ("maxpy", [h1, h1, 0]), ("maxpyin", [h1, h1, h1]), ("add", [h1, h1]),
+                                  ("addin", [h1, p // 2 + 1]), ("sub", [0, h1]), ("neg", [1]), ("inv", [h1])):
+                        cases.append((ring, p, op, list(t)))
             if ring in LOG_RINGS:
                 ms = sorted({prevprime(m) for m in ms if m >= 2} | {2, 3, 5, 7, prevprime(hi)})
             for p in ms:
@@ -496,9 +510,11 @@ def main(tier, replay=None):
         for f in chk.failing:
             if f["site"] not in seen:
                 seen.add(f["site"]); vf.log("  e.g.", f["site"], f["case"], "exp", f["expected"], "got", f["observed"])
-    chk.cov["rule"] = ("every ring type x moduli {min..min+2, max-2..max, prevprime(max), 2^k, 2^k+-1, sqrt(max), random} x every call form x "
-                       "operands {0,1,p-1,p/2,p/2+-1,sqrt p,random} incl. the corner triples (p-1,p-1,p-1),(p-1,p-1,0); "
-                       "non-trivial = some |operand| > 1; distinct = (ring,p,op,operands)")
+    chk.cov["rule"] = ("every ring type (50) x moduli {min..min+2, max-2..max, prevprime(max), 2^k, 2^k+-1, sqrt(max)+-1, random} "
+                       "(Log16: primes) x every call form x operands {0,1,lo,hi,p/2,p/2+-1,sqrt p,random} incl. the corner triples "
+                       "(hi,hi,hi),(hi,hi,0),(lo,lo,hi) and directed pairs with a*b = +-s (mod p), s small, large quotient "
+                       "(boundary of every quotient estimate / correction step); reduce on storage-type extremes; mul_precomp only "
+                       "inside its documented bitsize precondition; non-trivial = some |operand| > 1; distinct = (ring,p,op,operands)")
     chk.cov["traces_validated_against_impl"] = len(mout)
     chk.cov["rings"] = len(ALL_RINGS)
     byring = {}
